@@ -23,7 +23,8 @@ import common
 
 ID = "C19"
 LEVEL = "proof"
-SCRIPT = os.path.join(common.REPO, "nextflow", "scripts", "batchie.py")
+# C19_SCRIPT lets a candidate repair be checked from a copy without touching /repo
+SCRIPT = os.environ.get("C19_SCRIPT") or os.path.join(common.REPO, "nextflow", "scripts", "batchie.py")
 FAKE_DIR = os.path.join(os.path.dirname(os.path.abspath(__file__)), "fake_nextflow")
 FAKE = os.path.join(FAKE_DIR, "nextflow")
 
@@ -626,7 +627,7 @@ def gen(rng, tier):
         T = total_steps(m, bs, n)
         allp = list(pairs(m, bs, n))
         exhaustive = (not quick) and (everything or (n <= 4 if m == "retrospective" else n == 3))
-        pick = allp if exhaustive else rng.sample(allp, min(len(allp), 14 if quick else 250))
+        pick = allp if exhaustive else rng.sample(allp, min(len(allp), 14 if quick else 200))
         for (a, k), (g2, k2) in pick:
             o1, o2 = (CANON, CANON) if exhaustive else (rng.choice(orders_for(m)), rng.choice(orders_for(m)))
             cnt += 1
